@@ -342,6 +342,13 @@ fn json_number() -> impl Strategy<Value = J> {
         2 => (-100000i64..100000, 0u32..5).prop_map(|(i, d)| J::Num(format!("{:.*}", d.max(1) as usize, i as f64 / 10f64.powi(d as i32)))),
         2 => (proptest::sample::select(vec!["1", "0", "-1", "12", "-0", "5", "123456789"]), proptest::sample::select(vec!["e0", "E0", "e+2", "E-2", "e10", ".0", ".5", ".0e1", ".25E+3", "e-400", "e400", ".000"]))
             .prop_map(|(a, b)| J::Num(format!("{a}{b}"))),
+        // mantissa x decimal exponent over the whole range where conversions take different paths
+        // (exact powers of ten end at 10^22), and numbers far longer than any canonical form
+        2 => (any::<bool>(), "[1-9][0-9]{0,16}", crate::oneof![1 => Just(None), 1 => "[0-9]{1,12}".prop_map(Some)], -40i32..41, any::<bool>())
+            .prop_map(|(neg, int, frac, exp, upper)| J::Num(format!("{}{int}{}{}{exp}", if neg { "-" } else { "" }, frac.map(|f| format!(".{f}")).unwrap_or_default(), if upper { 'E' } else { 'e' }))),
+        1 => (any::<bool>(), crate::oneof![1 => Just("0".to_string()), 3 => "[1-9][0-9]{0,40}"], "[0-9]{20,60}", crate::oneof![2 => Just(None), 1 => (-30i32..31).prop_map(Some)])
+            .prop_map(|(neg, int, frac, exp)| J::Num(format!("{}{int}.{frac}{}", if neg { "-" } else { "" }, exp.map(|e| format!("e{e}")).unwrap_or_default()))),
+        1 => (any::<bool>(), "[1-9][0-9]{32,70}").prop_map(|(neg, d)| J::Num(format!("{}{d}", if neg { "-" } else { "" }))),
         1 => proptest::sample::select(vec!["9223372036854775808", "-9223372036854775809", "18446744073709551616", "123456789012345678901234567890", "1e21", "1E400", "-1e400", "4.9e-324", "2.2250738585072014e-308", "0.1", "1.7976931348623157e308"]).prop_map(|s| J::Num(s.to_string())),
     ]
 }
@@ -510,7 +517,7 @@ impl Property for C13P {
     }
     fn rule(&self) -> String {
         "JSON values from a proptest prop_recursive generator (objects with distinct hostile string keys, arrays, strings over all \
-         escapes / indicators / raw non-ASCII / control characters, numbers incl. i64 boundaries, > i64, fractions, exponents, -0; depth \
+         escapes / indicators / raw non-ASCII / control characters, numbers incl. i64 boundaries, > i64, fractions, mantissa x exponent -40..40, texts of 33..100 characters, -0; depth \
          <= 8, plus nesting chains to depth 200) serialised by a choice-stream-driven writer: compact, pretty (2 / 4 / tab), or random \
          runs of space, tab, LF, CRLF around every token; per-character choice of escape vs literal. Oracle: Yaml::load_from_str, Yaml::load_from_parser(Parser::new_from_str) and the deferred loading mode (early_parse(false) + parse_representation_recursive) give \
          one document equal to the generating value (objects -> mappings with string keys in order, numbers -> Integer / FloatingPoint of \
